@@ -1156,6 +1156,34 @@ func ruleEncodeValueTwin(c *Ctx) {
 // DOM/origin (C17.4)
 func ruleOrigin(c *Ctx) {
 	p := c.P
+	// the CORS check is skipped only when the request has NO Origin header (or "null"): a header that is
+	// present but empty is an origin that matches nothing. Reading the header with Get and comparing with ""
+	// conflates the two; the presence test is on the header's value list.
+	if fn := p.Fn("(*server.Service).setCommonHeaders"); fn != nil {
+		c.inst(1)
+		bad := ""
+		for _, g := range p.withHelpers(fn) {
+			for _, in := range instrsOf(g) {
+				b, ok := in.(*ssa.BinOp)
+				if !ok || (b.Op != token.EQL && b.Op != token.NEQ) {
+					continue
+				}
+				for _, pr := range [][2]ssa.Value{{b.X, b.Y}, {b.Y, b.X}} {
+					if s, isS := constString(pr[1]); !isS || s != "" {
+						continue
+					}
+					if call, isC := pr[0].(*ssa.Call); isC {
+						if cf := calleeFunc(&call.Call); cf != nil && cf.Name() == "Get" && cf.Pkg() != nil && (cf.Pkg().Path() == "net/http" || cf.Pkg().Path() == "net/textproto") {
+							if k, isK := constString(call.Call.Args[len(call.Call.Args)-1]); isK && strings.EqualFold(k, "Origin") {
+								bad = "the Origin header's value is compared with \"\" (" + p.InstrPos(b) + "): an Origin header that is present but empty is treated as absent and skips the allow-list"
+							}
+						}
+					}
+				}
+			}
+		}
+		c.check(bad == "", fnName(fn), "the origin check is skipped only for a request without Origin header", p.Pos(fn.Pos()), "no comparison of Header.Get(\"Origin\") with the empty string", bad)
+	}
 	if fn := p.Fn("(*server.Service).wsHandler"); fn != nil {
 		auth := p.Method("server.Service.wsHeaderAuth")
 		fCheck := p.Field("websocket.Upgrader.CheckOrigin")
